@@ -7,6 +7,7 @@
 import DuckModel.Drv.Core
 import DuckModel.Drv.C04
 import DuckModel.Drv.C07
+import DuckModel.Drv.C08I
 import DuckModel.Drv.C09
 import DuckModel.Drv.C10
 import DuckModel.Drv.C11
@@ -25,6 +26,7 @@ def handlers : List (List String → Option String) := [
   Duck.Drv.Core.handle,
   Duck.Drv.C04.handle,
   Duck.Drv.C07.handle,
+  Duck.Drv.C08I.handle,
   Duck.Drv.C09.handle,
   Duck.Drv.C10.handle,
   Duck.Drv.C11.handle,
